@@ -262,8 +262,13 @@ def run(prog, rep):
     gai = [c for (b, i, c) in nw.calls() if c.get("callee") == "getaddrinfo"]
     flags = [n for (b, i, n) in nw.nodes() if n["k"] == "asg" and strip_casts(n["l"])["k"] == "member" and strip_casts(n["l"])["field"] == "ai_flags"]
     ok4 = len(gai) == 1 and len(flags) == 1 and (cv(flags[0]["r"]) or 0) & AI_NUMERICHOST
-    rep.ob("C17.4", nw, "numeric", bool(ok4), "getaddrinfo is restricted to numeric hosts (AI_NUMERICHOST): no name resolution" if ok4 else
-           "getaddrinfo is called without AI_NUMERICHOST: host names are resolved, creation succeeds for non-numeric strings", nw.loc[0])
+    configured = "-DPLIBSYS_HAS_GETADDRINFO" in u.flags and "-DPLIBSYS_SOCKADDR_IN6_HAS_SCOPEID" in u.flags
+    if not gai and not configured:
+        ok4 = True      # a configuration without getaddrinfo or without a scope id: inet_pton is the platform's whole numeric parser
+    rep.ob("C17.4", nw, "numeric", bool(ok4), ("getaddrinfo is restricted to numeric hosts (AI_NUMERICHOST): no name resolution" if gai else "this configuration has no getaddrinfo: inet_pton only") if ok4 else
+           ("the getaddrinfo branch for strings containing ':' is not part of this build although the configuration provides getaddrinfo and a scope id "
+            "(its preprocessor guard is off): scoped IPv6 strings such as fe80::1%lo, which the platform accepts, are rejected by inet_pton" if not gai else
+            "getaddrinfo is called without AI_NUMERICHOST: host names are resolved, creation succeeds for non-numeric strings"), nw.loc[0])
     # result freed on every path after success
     leaks = []
 
@@ -292,7 +297,7 @@ def run(prog, rep):
                         live = None
         return (f2, live)
     Flow(nw, [(guards.EMPTY, None)], s5, e5).run()
-    rep.ob("C17.4", nw, "freeaddrinfo", not leaks and bool(gai), "the getaddrinfo result is freed on every path after success" if not leaks else
+    rep.ob("C17.4", nw, "freeaddrinfo", not leaks, ("the getaddrinfo result is freed on every path after success" if gai else "no getaddrinfo call in this build (reported above)") if not leaks else
            "line %d: a path returns without freeaddrinfo after a successful getaddrinfo" % leaks[0], leaks[0] if leaks else nw.loc[0])
     pt = [(b, i, c) for (b, i, c) in nw.calls() if c.get("callee") == "inet_pton"]
     okp = len(pt) == 2 and cv(pt[0][2]["args"][0]) in (AF_INET, AF_INET6) and cv(pt[1][2]["args"][0]) in (AF_INET, AF_INET6) and \
